@@ -254,6 +254,22 @@ def gen_defaults():
     yield dict(t="netdefault")
 
 
+def gen_resp(rng, tier):
+    """the answers the library gives to check-device / program-version requests, built the way the
+    library builds them: Request.response(...) directly or through EcoMAX.handle_frame -> write queue"""
+    quick = tier == "quick"
+    for i in range(120 if quick else 6000):
+        rq = dict(rq_rc=rng.choice([86, 0, rng.randrange(256)]), rq_sd=rng.choice([69, 69, 81, 0, rng.randrange(256)]),
+                  rq_et=rng.choice([48, 48, rng.randrange(256)]), rq_ev=rng.choice([5, 5, rng.randrange(256)]),
+                  via=("direct", "device")[i % 2])
+        if i % 3 == 0:
+            yield dict(t="respver", **rq)
+        else:
+            yield dict(t="respnet", eth=ip(rng) + ip(rng) + ip(rng), est=rng.random() < 0.5, wlan=ip(rng) + ip(rng) + ip(rng),
+                       wst=rng.random() < 0.5, ssid=rng.choice(["", "home", "tést-ü", "x" * 32]), enc=rng.randrange(5),
+                       sig=rng.randrange(256), srv=rng.random() < 0.5, **rq)
+
+
 def gen_ver(rng, tier):
     quick = tier == "quick"
 
@@ -330,6 +346,45 @@ def impl_netdefault(case):
     return fi.frame_class(176)(recipient=fi.addr(69))
 
 
+def net_info(case):
+    e, w = case["eth"], case["wlan"]
+    return NetworkInfo(
+        eth=EthernetParameters(ip=dotted(e[0:4]), netmask=dotted(e[4:8]), gateway=dotted(e[8:12]), status=case["est"]),
+        wlan=WirelessParameters(ip=dotted(w[0:4]), netmask=dotted(w[4:8]), gateway=dotted(w[8:12]), status=case["wst"],
+                                ssid=case["ssid"], encryption=EncryptionType(case["enc"]), signal_quality=case["sig"]),
+        server_status=case["srv"])
+
+
+def impl_resp(case):
+    """answer to a request with an arbitrary header: recipient is the asker, everything else the library's own"""
+    import asyncio
+    code = 48 if case["t"] == "respnet" else 64
+    rq = fi.frame_class(code)(recipient=fi.addr(case["rq_rc"]), sender=fi.addr(case["rq_sd"]),
+                              econet_type=case["rq_et"], econet_version=case["rq_ev"])
+    network = net_info(case) if case["t"] == "respnet" else NetworkInfo()
+    if case["via"] == "direct":
+        return rq.response(data={ATTR_NETWORK: network})
+    from pyplumio.devices.ecomax import EcoMAX
+
+    async def through_device():
+        queue = asyncio.Queue()
+        dev = EcoMAX(queue, network=network)
+        dev.handle_frame(rq)
+        await asyncio.sleep(0)
+        got = [queue.get_nowait() for _ in range(queue.qsize())]
+        await dev.shutdown()
+        return got
+
+    loop = asyncio.new_event_loop()
+    try:
+        out = loop.run_until_complete(through_device())
+    finally:
+        loop.close()
+    if len(out) != 1:
+        raise LookupError(f"{len(out)} frames queued in answer to one request")
+    return out[0]
+
+
 def default_version_case(case):
     """VersionInfo() as a `ver` case: the numeric components of the package version, the documented constants"""
     from pyplumio._version import __version_tuple__
@@ -340,7 +395,8 @@ def default_version_case(case):
 DEFAULT_NET = dict(t="net", eth=[0, 0, 0, 0, 255, 255, 255, 0, 0, 0, 0, 0], est=True, wlan=[0, 0, 0, 0, 255, 255, 255, 0, 0, 0, 0, 0],
                    wst=True, ssid="", enc=1, sig=100, srv=True)
 
-BUILD = dict(env=impl_env, req=impl_req, net=impl_net, ver=impl_ver, verdefault=impl_verdefault, netdefault=impl_netdefault)
+BUILD = dict(env=impl_env, req=impl_req, net=impl_net, ver=impl_ver, verdefault=impl_verdefault, netdefault=impl_netdefault,
+             respnet=impl_resp, respver=impl_resp)
 
 
 def net_words(case):
@@ -360,12 +416,14 @@ def model_line(case):
     if t == "req":
         _, builder, spec, _ = REQS[case["name"]]
         return "req " + builder + " " + " ".join(arg_word(a, case["args"].get(a, ABSENT)) for a, _, _ in spec)
-    if t == "net":
+    if t in ("net", "respnet"):
         return "net enc " + net_words(case)
     if t == "netdefault":
         return "net enc " + net_words(DEFAULT_NET)
     if t == "verdefault":
         case = default_version_case(case)
+    if t == "respver":
+        case = default_version_case(dict(sd=86))
     return "ver enc " + ver_words(case) + f" {case['sd']}"
 
 
@@ -395,12 +453,14 @@ def expected_fields(case):
             if len(a["schedule"]) != 7 or any(len(d) != 48 for d in a["schedule"]):
                 return None  # the positional layout is defined for a 7 x 48 week
             return f"{SCHEDULES.index(a['type'])} {a['switch']} {a['parameter']} {sched_word(a['schedule'])}"
-    if t == "net":
+    if t in ("net", "respnet"):
         return net_words(case)
     if t == "netdefault":
         return net_words(DEFAULT_NET)
     if t == "verdefault":
         return ver_words(default_version_case(case))
+    if t == "respver":
+        return ver_words(default_version_case(dict(sd=86)))
     if t == "ver":
         if (len(case["tag"]), len(case["dev"]), len(case["sig"])) != (4, 4, 6):
             return None
@@ -411,7 +471,7 @@ def expected_fields(case):
 def admissible(case):
     """the statement's admissible field values: the request must then be serialised"""
     t = case["t"]
-    if t in ("env", "verdefault", "netdefault"):
+    if t in ("env", "verdefault", "netdefault", "respnet", "respver"):
         return True
     if t == "req":
         a = case["args"]
@@ -477,8 +537,9 @@ def evaluate(cases, res, rng, producer_sample=150):
     for ci, (case, o) in enumerate(zip(cases, impl)):
         if o["bytes"] is None:
             continue
-        code = case["code"] if case["t"] == "env" else (REQS[case["name"]][0] if case["t"] == "req" else (176 if case["t"].startswith("net") else 192))
+        code = case["code"] if case["t"] == "env" else (REQS[case["name"]][0] if case["t"] == "req" else (176 if case["t"] in ("net", "netdefault", "respnet") else 192))
         rc, sd, et, ev = ((case["rc"], case["sd"], case["et"], case["ev"]) if case["t"] == "env"
+                          else (case["rq_sd"], 86, 48, 5) if case["t"].startswith("resp")
                           else (69, case.get("sd", 86), 48, 5))
         pl = bytes.fromhex(case["payload"]) if case["t"] == "env" else o["message"]
         judge.append(f"c02judge {hexs(o['bytes'])} {code} {rc} {sd} {et} {ev} {hexs(pl)}")
@@ -486,10 +547,10 @@ def evaluate(cases, res, rng, producer_sample=150):
         if case["t"] == "req":
             judge.append(f"parse {REQS[case['name']][3]} {hexs(o['message'])}")
             judge_at.append((ci, "fields"))
-        elif case["t"] in ("net", "netdefault"):
+        elif case["t"] in ("net", "netdefault", "respnet"):
             judge.append(f"net dec {hexs(o['message'])}")
             judge_at.append((ci, "fields"))
-        elif case["t"] in ("ver", "verdefault"):
+        elif case["t"] in ("ver", "verdefault", "respver"):
             judge.append(f"ver dec {hexs(o['message'])}")
             judge_at.append((ci, "fields"))
     answers = driver_batch(lines + judge)
@@ -681,6 +742,7 @@ def run(ctx):
     cases.extend(gen_net(rng, tier))
     cases.extend(gen_ver(rng, tier))
     cases.extend(gen_defaults())
+    cases.extend(gen_resp(rng, tier))
     if ctx.get("max_cases"):
         cases = cases[:ctx["max_cases"]]
     impl, model = evaluate(cases, res, rng, producer_sample=150 if tier == "quick" else 2000)
